@@ -353,3 +353,46 @@ def r7_loop_value(text):
         text = text[:mo.start()] + head + ''.join(out) + text[bc:]
         fired += 1
     return text, fired
+
+
+def r7_closure_tuple_param(text):
+    """R7c: a closure whose single parameter is a tuple pattern of identifiers, `|(a, b)| E`, is emitted as
+    `|vx_p| { let (a, b) = vx_p; E }` (same meaning; the verifier only accepts plain variables as closure
+    parameters).  E extends to the closing bracket of the enclosing call."""
+    fired = 0
+    while True:
+        m = mask(text)
+        mo = re.search(r'\|\s*(\(\s*\w+\s*(?:,\s*\w+\s*)*\))\s*\|', m)
+        if not mo:
+            break
+        # body: up to the matching close of the enclosing '(' (closure is the last argument)
+        k, depth = mo.end(), 0
+        while k < len(m):
+            ch = m[k]
+            if ch in '([{':
+                depth += 1
+            elif ch in ')]}':
+                if depth == 0:
+                    break
+                depth -= 1
+            elif ch == ',' and depth == 0:
+                break
+            k += 1
+        body = text[mo.end():k].strip()
+        text = text[:mo.start()] + '|vx_p| { let %s = vx_p; %s }' % (text[mo.start(1):mo.end(1)], body) + text[k:]
+        fired += 1
+    return text, fired
+
+
+def r7_eta_constructor(text):
+    """R7d: a datatype constructor passed as a function value, `.map(Enum::Variant)`, is eta-expanded to
+    `.map(|vx_x| Enum::Variant(vx_x))` (same meaning; unsupported by the verifier as written)."""
+    fired = 0
+    while True:
+        m = mask(text)
+        mo = re.search(r'\.(map|map_err|and_then)\(\s*((?:[A-Za-z_]\w*::)+[A-Z]\w*)\s*\)', m)
+        if not mo:
+            break
+        text = text[:mo.start()] + '.%s(|vx_x| %s(vx_x))' % (mo.group(1), text[mo.start(2):mo.end(2)]) + text[mo.end():]
+        fired += 1
+    return text, fired
